@@ -71,6 +71,19 @@ func TestGovcBoundedC19(t *testing.T) {
 					fmt.Printf("BOUNDED-REFUTATION property=C19 stray files=%q cut at %d of %d bytes : after a restart database %d holds a list of %d elements, %d were saved\n", strays, cut, len(data), idx, got, n)
 					t.FailNow()
 				}
+				// the restored list is the saved one from both ends (a restored list must be doubly linked)
+				if ok && n > 0 {
+					dsc := ds.newDataStoreCommand()
+					for pos := 0; pos < n; pos++ {
+						want := fmt.Sprintf("v%d-%d", idx, pos)
+						fromHead, _ := dsc.lindex("list", pos).data.(respBulkString)
+						fromTail, _ := dsc.lindex("list", pos-n).data.(respBulkString)
+						if string(fromHead) != want || string(fromTail) != want {
+							fmt.Printf("BOUNDED-REFUTATION property=C19 after a restart database %d: element %d of the list reads %q from the head and %q from the tail (index %d), %q was saved\n", idx, pos, string(fromHead), string(fromTail), pos-n, want)
+							t.FailNow()
+						}
+					}
+				}
 			}
 			for _, s := range strays {
 				os.Remove(s)
